@@ -61,13 +61,34 @@ def verus_cmd(path, seed=0, rlimit=None, multiple_errors=12, threads=8):
     return cmd
 
 
+def _verus_cache_path(path, cmd):
+    """Scratch runs only (VERIF_NO_EVIDENCE: seeded corpus / matrix): the 18 checks of one scratch tree generate the very
+    same file, so the verifier's answer for (generated text, command line) is memoised.  Registered checks never use it."""
+    if not os.environ.get("VERIF_NO_EVIDENCE"):
+        return None
+    import hashlib
+    h = hashlib.sha256(open(path, "rb").read())
+    h.update(" ".join(cmd).encode())
+    d = os.path.join(VERIF, "build", "verus-cache")
+    os.makedirs(d, exist_ok=True)
+    return os.path.join(d, h.hexdigest()[:24] + ".json")
+
+
 def start_verus(path, **kw):
     cmd = verus_cmd(path, **kw)
-    return cmd, time.time(), subprocess.Popen(cmd, cwd=os.path.dirname(path), stdout=subprocess.PIPE, stderr=subprocess.PIPE, text=True)
+    cp = _verus_cache_path(path, cmd)
+    if cp and os.path.exists(cp):
+        try:
+            return cmd, time.time(), ("cached", json.load(open(cp)))
+        except ValueError:
+            pass
+    return cmd, time.time(), subprocess.Popen(cmd, cwd=os.path.dirname(path), stdout=subprocess.PIPE, stderr=subprocess.PIPE, text=True), cp
 
 
 def finish_verus(started):
-    cmd, t0, proc = started
+    if isinstance(started[2], tuple) and started[2][0] == "cached":
+        return started[2][1]
+    cmd, t0, proc, cp = started
     out, err = proc.communicate()
     wall = time.time() - t0
     try:
@@ -82,7 +103,12 @@ def finish_verus(started):
                 diags.append(json.loads(line))
             except Exception:
                 pass
-    return {"cmd": " ".join(cmd), "rc": proc.returncode, "json": js, "diags": diags, "wall": wall, "stderr": err}
+    res = {"cmd": " ".join(cmd), "rc": proc.returncode, "json": js, "diags": diags, "wall": wall, "stderr": err}
+    if cp and js is not None:
+        tmp = cp + ".%d" % os.getpid()
+        json.dump(res, open(tmp, "w"))
+        os.replace(tmp, cp)
+    return res
 
 
 def run_verus(path, seed=0, rlimit=None, multiple_errors=12, threads=8):
